@@ -291,6 +291,27 @@ FIXED += [
       "result": "v4"}),
 ]
 
+FIXED += [
+    ("F43-preprocess-arg-mutates-expression", "C10", "verbs do not modify the expression objects passed to them",
+     "an aggregate expression object reused under another grouping state kept the first partition_by",
+     {"tables": [TG], "shared": [F("sum", V("v0", "x"))], "kinds": ["agg"],
+      "steps": [S(), st("v1", "mutate", "v0", items=[["q", ["shared", 0]]]), st("v2", "group_by", "v0", cols=[{"v": "v0", "n": "g"}]),
+                st("v3", "mutate", "v2", items=[["q", ["shared", 0]]]), st("v4", "summarize", "v2", items=[["s", ["shared", 0]]])],
+      "results": ["v1", "v3", "v4"], "result": "v4", "validate": "check"}),
+]
+
+FIXED += [
+    ("F44-polars-neg-unsigned", "C12", "polars negation of unsigned integers", "Polars: unary minus on an unsigned integer column raised InvalidOperationError",
+     {"tables": [src([["id", "int64"], ["u", "uint16"]], [[1, 1], [2, None]])],
+      "steps": [S(), st("v1", "mutate", "v0", items=[["z", F("neg", C("u"))]])], "result": "v1", "validate": "check"}),
+    ("F45-polars-join-key-dtype", "C12", "polars negation of unsigned integers",
+     "Polars: right key column restored after join_where took the left column's dtype",
+     {"tables": [src([["id", "int64"], ["a", "uint32"], ["c", "int64"]], [[1, 1, 1], [2, 2, 1]]), src([["id", "int64"], ["x", "int64"]], [[1, 5], [2, 0]], "t1")],
+      "steps": [S(), S("v1", "t1"), {"out": "v2", "verb": "join", "in": "v0", "right": "v1", "how": "inner", "suffix": "_r",
+                                      "on": [F("le", V("v0", "c"), V("v1", "x")), F("eq", V("v1", "id"), V("v0", "a"))]}],
+      "result": "v2", "validate": "check"}),
+]
+
 
 def main():
     log = subprocess.run(["git", "-C", "/repo", "log", "--format=%h %s"], capture_output=True, text=True).stdout.splitlines()
